@@ -1004,4 +1004,5 @@ func main() {
 
 	wireCases(o)
 	wireXCases(o) // phase 4: kind `bsw`, several ReadFrom/Fix rounds into one destination (wirex.go)
+	allocCases(o) // phase 5: hostile declared counts, allocation measured (alloc.go) -> C11.alloc.read
 }
